@@ -7,9 +7,11 @@
 (* model's token stream (non-empty tokens, suffix offset within the token,   *)
 (* lengths sum to the text), plus design facts the grammar relies on.  Every *)
 (* state is also exported as a CASE (text + the model's token stream) that   *)
-(* the harness replays through oq3_lexer::tokenize and LexedStr (B1).        *)
+(* the harness replays through oq3_lexer::tokenize and LexedStr (B1); the    *)
+(* case also carries the rows of the machine spec TokenTable (SyntaxKind and *)
+(* lexical diagnostic of every token), compared with the real LexedStr.      *)
 (***************************************************************************)
-EXTENDS Lexer, Json
+EXTENDS TokenTable, Json
 CONSTANTS Chunks,     \* a set of character sequences; a text grows by appending one chunk
           MaxLen,     \* bound on the text length (characters)
           MaxChunks,  \* bound on the number of chunks appended
@@ -44,5 +46,10 @@ Design_Model ==
      /\ \A i \in 1..Len(ts) : ts[i].kind \in {"LineComment", "Pragma", "Annotation"} =>
             \A k \in st[i]..(st[i] + ts[i].n - 1) : s[k] # "\n"
      /\ \A i \in 1..(Len(ts) - 1) : ts[i].kind = "Ident" => ts[i + 1].kind # "Ident"
-Export == Emit /\ Len(s) >= 1 => PrintT(<<"CASE", ToJson([chars |-> s, toks |-> Tokens(s)])>>)
+(* the parser-facing table (machine spec TokenTable): starts strictly increasing and contiguous, ending at the text length *)
+Table_Model == LET tb == Table(s) IN
+                 /\ \A i \in 1..Len(tb) : tb[i].n >= 1 /\ tb[i].st = (IF i = 1 THEN 1 ELSE tb[i - 1].st + tb[i - 1].n)
+                 /\ (tb # <<>> => tb[Len(tb)].st + tb[Len(tb)].n - 1 = Len(s))
+Export == Emit /\ Len(s) >= 1 => PrintT(<<"CASE", ToJson([chars |-> s, toks |-> Tokens(s),
+                                                         table |-> [i \in 1..Len(Table(s)) |-> [kind |-> Table(s)[i].kind, err |-> Table(s)[i].err]]])>>)
 =============================================================================
